@@ -972,6 +972,9 @@ func (p *pkgCtx) isChanTypeExpr(e ast.Expr) bool {
 		return p.namedChan[x.Name]
 	case *ast.ParenExpr:
 		return p.isChanTypeExpr(x.X)
+	case *ast.TypeAssertExpr:
+		// ch := v.Load().(chan T): a channel kept in an atomic.Value or an interface
+		return x.Type != nil && p.isChanTypeExpr(x.Type)
 	case *ast.CallExpr:
 		if id, ok := x.Fun.(*ast.Ident); ok && id.Name == "make" && len(x.Args) > 0 {
 			return p.isChanTypeExpr(x.Args[0])
